@@ -56,7 +56,7 @@ THEOREMS = [
     "AiuVerif.C10.raises_on_out_of_range_reading",
 ]
 RULE = ("ops pipe/extract/sort/compute. Exhaustive: every counter sequence of length <=3 (quick) / <=4 over readings "
-        "{0, 2^32-1000, 2^32-500, 50, 2^31} x time steps {0,1,2} (compute); every tie sequence of length <=3 over "
+        "{0, 2^32-1000, 2^32-500, 50, 2^31} x time steps {0,1,2,2^21} us (compute); every tie sequence of length <=3 over "
         "cat {Exec, Prep} (compute); every slice sequence of length <=2 (quick) / <=3 over name {Exec, Prep} x dur "
         "{2, 1/16} x TS4 {10, 12} x reading {0, 1000, 1500} (pipe). Random: 1-3 ranks interleaved, monotone unwrapped "
         "charge with wraps, ties in TS4, zero readings, short slices, Prep slices, missing keys, TS4 order differing "
@@ -456,7 +456,7 @@ def mk_ctr(pid, cat, t, q, tsc=None, **kw):
 def gen_grid(ctx: Ctx):
     quick = ctx.quick()
     readings = [0, M32 - 1000, M32 - 500, 50, 1 << 31]
-    steps = [0, 1, 2]
+    steps = [0, 1, 2, 1 << 21]          # 2^21 us: long enough that a spurious full wrap (2^32 units) stays below 100 W
     elems = [(q, d) for q in readings for d in steps]
     for n in range(0, 4 if quick else 5):
         for seq in itertools.product(elems, repeat=n):
@@ -490,9 +490,11 @@ def gen_rank_slices(rng, pid, base):
     t = base + Q(rng.randint(0, 64), 16)
     out = []
     for _ in range(n):
-        dt = Q(rng.choice([0, 0, 1, 4, 16, 16, 40, 160, 1600]), 16)
+        dt = Q(rng.choice([0, 0, 1, 4, 16, 16, 40, 160, 1600, 1 << 25, 3 << 24]), 16)   # incl. idle gaps of seconds
         t += dt
         rate = rng.choice([0, 10, 400, 3000, 4200, 5000, 10 ** 6])      # charge units per us; > 4266 is clamped
+        if dt > 1000:
+            rate = rng.choice([0, 0, Q(1, 1000), 1])
         u += int(dt * rate) + rng.choice([0, 0, 1, 7])
         name = rng.choice(NAMES) if rng.random() < 0.85 else rng.choice([PREP, "x Cmpt Prep_2"])
         dur = rng.choice([2, 2, 5, Q(1, 8), Q(1, 16), Q(3, 16), 0])
@@ -544,11 +546,11 @@ def gen_random(ctx: Ctx):
         u = {p: M32 - rng.randint(1, 5000) for p in (0, 1, 2)}
         for _k in range(n):
             p = rng.choice([0, 0, 1, 2])
-            dt = Q(rng.choice([0, 1, 16, 16, 48, 320]), 16)
+            dt = Q(rng.choice([0, 1, 16, 16, 48, 320, 1 << 25]), 16)
             if mode < 0.25 and rng.random() < 0.3:
                 dt = -dt
             t[p] += dt
-            u[p] += int(abs(dt) * rng.choice([5, 500, 4000, 6000])) + rng.choice([0, 1])
+            u[p] += (int(abs(dt) * rng.choice([5, 500, 4000, 6000])) if abs(dt) < 1000 else 0) + rng.choice([0, 0, 1])
             q = u[p] % M32
             r = rng.random()
             if r < 0.1:
